@@ -285,6 +285,18 @@ impl Check for C11 {
     }
     fn generate(&self, g: &GenParams, emit: &mut dyn FnMut(Case)) {
         let mut r = g.rng(11);
+        // members nested up to the limit (255 containers) below paths of depth 1 and 2
+        let mut idx = 0u64;
+        for depth in [5usize, 60, 100, 200, 240, 250, 251, 252, 253, 254] {
+            for _ in 0..3 {
+                idx += 1;
+                if g.mine(idx) {
+                    let a = String::from_utf8(doc::nested(&mut r, depth)).unwrap();
+                    let c1 = String::from_utf8(doc::nested(&mut r, depth.saturating_sub(1).max(1))).unwrap();
+                    emit(Case::new("deep-member", format!("{{\"a\":{},\"b\":1,\"c\":[{},\"x\"]}}", a, c1).into_bytes()));
+                }
+            }
+        }
         let n = g.count(150_000, 8_000_000);
         for k in 0..n {
             let mut o = DocOpts::random(&mut r);
@@ -298,6 +310,28 @@ impl Check for C11 {
     }
     fn exec(&self, ctx: &mut Ctx, c: &Case) {
         let b = &c.input;
+        if c.entry == "deep-member" {
+            // a deeply nested value below a short path: get and get_many must keep agreeing up
+            // to the nesting limit
+            let Ok(d) = recog::parse_document(b) else { return };
+            ctx.nontrivial();
+            ctx.class("set:deep-member");
+            let sets: Vec<Vec<Vec<PathEl>>> = vec![
+                vec![vec![PathEl::Key("a".into())], vec![PathEl::Key("b".into())]],
+                vec![vec![PathEl::Key("b".into())], vec![PathEl::Key("c".into()), PathEl::Idx(1)]],
+                vec![vec![PathEl::Key("c".into()), PathEl::Idx(0)], vec![PathEl::Key("c".into()), PathEl::Idx(1)], vec![PathEl::Key("a".into())]],
+            ];
+            for ps in &sets {
+                // only when single-path get resolves every path (the nesting limit may refuse)
+                let ex = exact(b);
+                if ps.iter().all(|p| sonic_rs::get(&ex[..], &to_pointer(p)).is_ok()) {
+                    check_get_many(ctx, b, &d.root, ps, false);
+                    check_get_many(ctx, b, &d.root, ps, true);
+                }
+            }
+            ctx.sample("deep-member");
+            return;
+        }
         let d = match recog::parse_document(b) {
             Ok(d) if d.full_ok() && d.flags.max_depth <= 64 && !d.flags.has_dup_keys => d,
             _ => {
@@ -325,6 +359,6 @@ impl Check for C11 {
         ctx.sample("doc");
     }
     fn required_classes(&self, _b: &str, _t: Tier) -> Vec<&'static str> {
-        vec!["set:checked", "set:all-resolve", "set:some-missing", "set:repeated-path", "schema:checked"]
+        vec!["set:checked", "set:all-resolve", "set:some-missing", "set:repeated-path", "schema:checked", "set:deep-member"]
     }
 }
